@@ -391,6 +391,9 @@ impl<T> Future for ReceiveFuture<'_, T> {
                 },
                 _ => {
                     if this.is_stream {
+                        // the previous wait is finished and nothing refers to the
+                        // signal any more, re-arm it for the next wait
+                        this.sig = Signal::new_async();
                         this.state = FutureState::Zero;
                         continue;
                     }
